@@ -1,0 +1,73 @@
+//go:build verif
+
+package table
+
+import (
+	enc "github.com/named-data/ndnd/std/encoding"
+)
+
+// Contracts for the gcv verifier (/verif); compiled only with build tag `verif`.
+
+func forallIn(lo, hi int, f func(int) bool) bool {
+	for i := lo; i < hi; i++ {
+		if !f(i) {
+			return false
+		}
+	}
+	return true
+}
+
+func implies(a, b bool) bool { return !a || b }
+
+// ---------------------------------------------------------------------------------------
+// Dead nonce list: an abstract set of (name, nonce) keys
+// ---------------------------------------------------------------------------------------
+
+// specDnlKey: the key under which a (name, nonce) pair is recorded (A-HASH: the name hash identifies the name).
+func specDnlKey(name enc.Name, nonce uint32) uint64 { return enc.SpecNameHash(name) + uint64(nonce) }
+
+//@ func (*DeadNonceList).Find
+//@   requires d.list != nil
+//@   ensures result == mapHas(d.list, specDnlKey(name, nonce))
+
+//@ func (*DeadNonceList).Insert
+//@   requires d.list != nil
+//@   modifies d.list[*], d.expirationQueue.pq
+//@   ensures result == old(mapHas(d.list, specDnlKey(name, nonce))) && mapHas(d.list, specDnlKey(name, nonce))
+//@   ensures forall(func(k uint64) bool { return k != specDnlKey(name, nonce) ==> mapHas(d.list, k) == old(mapHas(d.list, k)) })
+
+// Expired records are removed, at most 100 per tick, and nothing else is touched; the loop stops.
+//
+//@ func (*DeadNonceList).RemoveExpiredEntries
+//@   requires d.list != nil
+//@   modifies d.list[*], d.expirationQueue.pq
+//@   ensures forall(func(k uint64) bool { return mapHas(d.list, k) ==> old(mapHas(d.list, k)) })
+//@   loop 1 invariant 0 <= evicted && evicted < 100 && forall(func(k uint64) bool { return mapHas(d.list, k) ==> old(mapHas(d.list, k)) })
+//@   loop 1 decreases 100 - evicted
+
+// ---------------------------------------------------------------------------------------
+// Interface-level contracts of the tables, as the forwarding pipelines see them
+// ---------------------------------------------------------------------------------------
+
+//@ func (PitCsTable).InsertInterest
+//@   modifies all(basePitEntry), all(nameTreePitEntry), all(pitCsTreeNode), all(PitCsTree)
+//@   ensures result0 != nil
+
+//@ func (FibStrategy).FindNextHopsEnc
+//@   ensures forallIn(0, len(result), func(i int) bool { return result[i] != nil })
+
+//@ func (PitCsTable).FindInterestPrefixMatchByDataEnc
+//@   ensures forallIn(0, len(result), func(i int) bool { return result[i] != nil })
+
+//@ func (PitEntry).PitCs
+//@   pure
+//@   ensures result != nil
+
+//@ func (PitEntry).InRecords
+//@   ensures result != nil ==> forall(func(k uint64) bool { return mapHas(result, k) ==> result[k] != nil })
+
+//@ func (PitEntry).OutRecords
+//@   ensures result != nil ==> forall(func(k uint64) bool { return mapHas(result, k) ==> result[k] != nil })
+
+//@ func (PitEntry).GetOutRecords
+//@   ensures forallIn(0, len(result), func(i int) bool { return result[i] != nil })
